@@ -31,6 +31,9 @@ def main(p):
         """The caller's request in the given form."""
         full = cell['req'].lstrip('.')
         gen_cls = lib.type_of(full, tp)
+        plus = (a.get('plus') or {}).get(full.rsplit('.', 1)[0])
+        if gen_cls is None and plus:     # type of a dependency package that is itself a proto-plus library
+            gen_cls = getattr(importlib.import_module(plus), full.rsplit('.', 1)[1])
         if form == 'dict':
             return probelib.native(dyn, py_names=gen_cls is not None)
         if gen_cls is not None:
@@ -333,7 +336,13 @@ def conformance(p, a, lib, out, combos, build_args, VOID):
             svc = cell['service']
             C = lib.client_cls(svc)
             if svc not in clients:
-                clients[svc] = (C(transport=C.get_transport_class('grpc')(channel=chan, credentials=AnonymousCredentials())),) + lib.sync(svc)
+                try:
+                    clients[svc] = (C(transport=C.get_transport_class('grpc')(channel=chan, credentials=AnonymousCredentials())),) + lib.sync(svc)
+                except BaseException as e:
+                    clients[svc] = None
+                    out['conformance']['mismatches'].append(dict(cell=cell['id'], what=f'client construction failed: {type(e).__name__}: {str(e)[:200]}'))
+            if clients[svc] is None:
+                continue
             real, fake, fch = clients[svc]
             form, vlabel, reqs, rlabel, reply, Dreq, Dresp = [x for x in combos(cell)][-1]
             raw = [r.SerializeToString() for r in reply] if isinstance(reply, list) else [reply.SerializeToString()]
@@ -372,7 +381,13 @@ def conformance(p, a, lib, out, combos, build_args, VOID):
                     continue   # D22: nothing is sent at all
                 C, A = lib.client_cls(svc), lib.client_cls(svc, True)
                 if svc not in aclients:
-                    aclients[svc] = (A(transport=C.get_transport_class('grpc_asyncio')(channel=achan, credentials=AnonymousCredentials())),) + lib.aio(svc)
+                    try:
+                        aclients[svc] = (A(transport=C.get_transport_class('grpc_asyncio')(channel=achan, credentials=AnonymousCredentials())),) + lib.aio(svc)
+                    except BaseException as e:
+                        aclients[svc] = None
+                        out['conformance']['mismatches'].append(dict(cell=cell['id'], what=f'aio client construction failed: {type(e).__name__}: {str(e)[:200]}'))
+                if aclients[svc] is None:
+                    continue
                 real, fake, fch = aclients[svc]
                 form, vlabel, reqs, rlabel, reply, Dreq, Dresp = [x for x in combos(cell)][-1]
                 raw = [r.SerializeToString() for r in reply] if isinstance(reply, list) else [reply.SerializeToString()]
